@@ -82,8 +82,9 @@ CLAIMS = {
     "C15": ("EventStore level: a reference taken before a store that enlarges the file keeps its bytes; its address is unchanged under a non-moving "
             "resize and changes under mremap(MAYMOVE) - the latter is a listed known finding.", DB_NOTE, "DESIGN.md 8.3 C15, 8.5"),
     "C18": ("Store level: an event whose kind is arbitrary in 20000..=30010 is stored by a complete store_event, retrievable iff not ephemeral, and "
-            "carries no deletion marker.", DB_NOTE + "Not decided: vanish; remove_event among two events (thorough, hits its cap).",
-            "DESIGN.md 8.3 C18"),
+            "carries no deletion marker; for every ephemeral kind 20000..=29999 and arbitrary time the statistics afterwards count 0 entries in "
+            "every index table, so no lookup or query path can reach the event.", DB_NOTE + "Not decided: vanish; remove_event of a stored event "
+            "and among two events, removal of an absent id (thorough harnesses, hit their caps).", "DESIGN.md 8.3 C18"),
     "C19": ("Tags/Event/Filter::from_parts with arbitrary contents: image equals a reference encoder's, accessors return the parts in order (absent "
             "options as their defaults), BufferTooSmall exactly below the needed size, never a panic.",
             "Not claimed: the 65,536-boundaries (the array-theory query ran out of 16 GB), sign_new (FFI), the JSON paths (C01/C07).",
